@@ -81,6 +81,8 @@ def from_sparse(data, cols, channel_ids):
     if len(channel_ids) != len(np.unique(channel_ids)):
         raise NotImplementedError("Multiple identical requested channels "
                                   "in from_sparse().")
+    # NOTE: unsigned channel ids (e.g. those of sparse templates) cannot be combined with -1 below.
+    channel_ids = np.asarray(channel_ids, dtype=np.int64)
     channel_axis = 1
     shape = list(data.shape)
     assert data.ndim >= 2
